@@ -47,6 +47,10 @@ class TermGen:
         if self.compounds:
             if self.wrap and self.rng.random() < 0.15:
                 return ["cmp", "Wrap", [self.term(depth - 1)]]
+            if self.wrap and self.rng.random() < 0.25:
+                # a struct with an optional field: Some(..) and None have one and zero children
+                opt = ["cmp", "Some", [self.term(depth - 1)]] if self.rng.random() < 0.55 else ["cmp", "None", []]
+                return ["cmp", "Slot", [self.term(depth - 1), opt]]
             ty = self.rng.choice(sorted(CMP_ARITY))
             return ["cmp", ty, [self.term(depth - 1) for _ in range(CMP_ARITY[ty])]]
         return self.atom()
